@@ -115,7 +115,13 @@ def p2p(ctx):
                         if isinstance(c, int) and not isinstance(c, bool) and 0 < c < 200:
                             lens.update({c, c + 1, c + 2})
     ctx.extra["p2p_datagram_lengths"] = sorted(lens)
-    for kind, fixed, L in [(k, f, L) for k, f in kinds.items() for L in sorted(lens) if max(f) < L]:
+    # a command cut off before its type octet (offset 20): the prefix says "command", there is no type — nothing may be served
+    # and nobody may become registered by it
+    TYPE_POS = 20
+    kinds["truncated-command"] = {0: cmd[0], 1: cmd[1], 2: cmd[2]}
+    trunc = {TYPE_POS - 4, TYPE_POS - 1, TYPE_POS}
+    for kind, fixed, L in [(k, f, L) for k, f in kinds.items() for L in sorted(lens | (trunc if k == "truncated-command" else set()))
+                           if max(f) < L and (k != "truncated-command" or L <= TYPE_POS)]:
         for state in ("unknown", "known-unregistered", "registered"):
             key = f"{dr.qualname} | {kind},{state}" + ("" if L == 32 else f",{L} octets")
             I = Interp(repo)
@@ -139,12 +145,21 @@ def p2p(ctx):
                 I.call(dr, [h, sym_bytes(I, "d", L, fixed), A], {})
                 return storage, rpt, other, h
 
-            for st, (k, v) in explore(run_p, max_paths=200):
+            try:
+                paths_p = explore(run_p, max_paths=200)
+            except AnalysisError as e_:
+                ctx.analysis_errors.append(f"{key}: {e_}")
+                continue
+            if any(k_ == "abort" for _, (k_, _v) in paths_p):
+                # this scenario cannot be followed; the others are still decided (the run ends in exit 2 unless one of them finds a violation)
+                ctx.analysis_errors.append(f"{key}: {next(v_ for _, (k_, v_) in paths_p if k_ == 'abort')}")
+                continue
+            for st, (k, v) in paths_p:
                 I.st = st
                 if k == "abort":
                     raise AnalysisError(f"{key}: {v}")
                 if k == "raise":
-                    ctx.ob("gate/silent-otherwise" if kind in ("unknown-command", "idle") else "gate/serve-registered", key, False, f"handler raises {v.exc} at {v.msg}", dr.loc)
+                    ctx.ob("gate/silent-otherwise" if kind in ("unknown-command", "idle", "truncated-command") else "gate/serve-registered", key, False, f"handler raises {v.exc} at {v.msg}", dr.loc)
                     continue
                 storage, rpt, other, h = v
                 sd = sends(st)
